@@ -142,6 +142,10 @@ pub struct Variant {
 pub enum Shape {
     Struct(Vec<Field>),
     Enum(Vec<Variant>),
+    /// `struct R;` — accepts the bare word only
+    Unit,
+    /// `struct R(T);` — delegates everything to T
+    Newtype(Ty),
 }
 
 #[derive(Clone, PartialEq, Eq, Debug)]
@@ -214,7 +218,7 @@ impl Recv {
     pub fn fields(&self) -> &[Field] {
         match &self.shape {
             Shape::Struct(f) => f,
-            Shape::Enum(_) => &[],
+            _ => &[],
         }
     }
     pub fn is_enum(&self) -> bool {
@@ -359,6 +363,9 @@ impl<'a> Gen<'a> {
     fn field_ty(&mut self, depth: usize, allow_recv: bool) -> Ty {
         let r = self.rng.below(10) as u32;
         if allow_recv && depth < self.profile.max_depth && r < self.profile.p_nested {
+            if self.rng.chance(1, 8) {
+                return Ty::Recv(self.small_recv(depth + 1));
+            }
             let is_enum = self.rng.chance(2, 5);
             let id = self.meta_recv(depth + 1, is_enum);
             return if self.rng.chance(1, 6) { Ty::BoxRecv(id) } else { Ty::Recv(id) };
@@ -464,6 +471,44 @@ impl<'a> Gen<'a> {
             });
         }
         out
+    }
+
+    /// a unit or newtype struct receiver (pass-through shapes)
+    pub fn small_recv(&mut self, depth: usize) -> usize {
+        let id = self.recvs.len();
+        let shape = if self.rng.chance(1, 3) {
+            Shape::Unit
+        } else {
+            // reserve the slot first so that a nested receiver gets a later id
+            Shape::Unit
+        };
+        self.recvs.push(Recv {
+            id,
+            tr: Trait::Meta,
+            rename_all: None,
+            cdefault: Def::None,
+            from_ident: false,
+            post: Post::None,
+            allow_unknown: false,
+            from_word: false,
+            from_none: false,
+            attr_names: vec![],
+            forward: Fwd::None,
+            attrs_field: None,
+            supports: None,
+            magic: vec![],
+            shape,
+            generics: String::new(),
+        });
+        if self.rng.chance(2, 3) {
+            let inner = match self.rng.below(4) {
+                0 if depth < self.profile.max_depth => Ty::Recv(self.meta_recv(depth + 1, false)),
+                1 => Ty::Opt(Box::new(Ty::Sc(self.scalar()))),
+                _ => Ty::Sc(self.scalar()),
+            };
+            self.recvs[id].shape = Shape::Newtype(inner);
+        }
+        id
     }
 
     /// a FromMeta receiver usable as a field type
